@@ -1,0 +1,41 @@
+"""Verification hooks.
+
+Everything here is inert unless the environment variable
+``MEANINGFUL_DATA_VTLENGINE_VERIF`` is ``1`` when vtlengine is imported *and* a verification
+harness has installed a sink / fault injector / scheduler.  The engine never depends on it.
+"""
+
+import os
+from typing import Any, Callable, List, Optional
+
+ENABLED: bool = os.environ.get("MEANINGFUL_DATA_VTLENGINE_VERIF") == "1"
+
+sink: Optional[Callable[[dict], None]] = None  # type: ignore[type-arg]
+fault: Optional[Callable[[str, Optional[str]], None]] = None
+scheduler: Optional[Callable[[str, dict], None]] = None  # type: ignore[type-arg]
+
+
+def event(ev: str, **fields: Any) -> None:
+    """Report one linearization point (after the state change it names)."""
+    if ENABLED and sink is not None:
+        fields["ev"] = ev
+        sink(fields)
+
+
+def fault_point(kind: str, name: Optional[str] = None) -> None:
+    """A point at which the harness may inject a failure (it raises from here)."""
+    if ENABLED and fault is not None:
+        fault(kind, name)
+
+
+def yield_point(point: str, **info: Any) -> None:
+    """A shared-state access point at which a harness scheduler may switch threads."""
+    if ENABLED and scheduler is not None:
+        scheduler(point, info)
+
+
+def tables(conn: Any) -> List[str]:
+    """Names of the tables currently materialised in the session catalog."""
+    if not (ENABLED and sink is not None):
+        return []
+    return sorted(r[0] for r in conn.execute("SELECT table_name FROM duckdb_tables()").fetchall())
